@@ -193,6 +193,13 @@ def Server.finish (s : Server H) (c : RClient H) : Server H :=
   else
     { s with clients := s.clients.filter (·.address ≠ c.address), detached := s.detached.map fun x => if x.cid = c.cid then c' else x }
 
+/-- Entries of the map that are active or may still become active (pending handshakes). -/
+def Server.activeCount (s : Server H) : Nat :=
+  (s.clients.filter fun c => match c.state with
+    | .pending .. => true
+    | .active .. => true
+    | _ => false).length
+
 def errFrame (nonce : Nat) (e : HsError) : List Nat := encode (.hsError nonce e)
 
 /-- `handle_handshake_syn`. -/
@@ -205,7 +212,7 @@ def Server.handleSyn (s : Server H) (addr : Nat) (version nonce maxRecvRate maxP
       ({ s with eventsOut := if s.cfg.enableHandshakeErrors then s.eventsOut ++ [SEvent.error addr ev] else s.eventsOut },
        [(addr, errFrame nonce e)])
     if version ≠ PROTOCOL_VERSION then refuse .version .version
-    else if s.clients.length ≥ s.cfg.maxTotalConnections ∧ s.active.length ≥ s.cfg.maxActiveConnections then refuse .serverFull .serverFull
+    else if s.clients.length ≥ s.cfg.maxTotalConnections ∨ s.activeCount ≥ s.cfg.maxActiveConnections then refuse .serverFull .serverFull
     else if maxRecvAlloc < s.cfg.ep.maxPacketSize then refuse .config .config
     else if maxPacketSize > s.cfg.ep.maxReceiveAlloc then refuse .config .config
     else
@@ -525,8 +532,7 @@ def Client.handleFrame (hc : HC H) (c : Client H) (f : Frame) (nowMs nowNs : Nat
         let h := hc.new (hcConfig c.ep localNonce nonce maxRecvRate maxRecvAlloc) nowNs
         let h := sends.foldl (fun h (e : List Nat × Nat × SendMode) => hc.send h e.1 e.2.1 e.2.2) h
         .ok ({ c with eventsOut := c.eventsOut ++ [CEvent.connect],
-                      -- `timeout_time_ms: self.config.endpoint_config.active_timeout_ms` (as written in the code)
-                      state := .active localNonce h c.ep.activeTimeoutMs none },
+                      state := .active localNonce h (nowMs + c.ep.activeTimeoutMs) none },
              [encode (.hsAck nonce)])
       else .ok (c, [])
     | .active localNonce _ _ _ =>
